@@ -13,6 +13,11 @@ quick.append(job("c03.platt_pairing", secs=20))
 for model in range(8):
     for nq, d in ((2, 1), (2, 2), (3, 3)):
         quick.append(job("c03.batches", secs=60, allow=("inexact",), model=model, nq=nq, d=d, nt=4))
+# a large batch of concrete rows next to the symbolic ones (code paths selected by the batch size)
+for model in range(7):
+    quick.append(job("c03.batches", secs=60, allow=("inexact",), model=model, nq=1, d=2, nt=4, big=45))
+for model in (0, 1, 2):
+    quick.append(job("c03.batches_retyped", secs=60, qto=2000, allow=("inexact",), model=model, nq=1, d=2, big=45))
 # predictors fitted with f64 and re-typed over the symbolic scalar through serde (PCA, PLS regression, GMM)
 for model in (0, 1, 2):
     for nq, d in ((2, 2), (3, 3)):
